@@ -50,6 +50,30 @@ def main():
             d2['trs'] = [{'n': 7, 'o': [1, 0, -1], 'm': [0, 1, 0, -1, 0, 0, 0, 0, 1], 'spell': '12'}]
             d2['variant'] = str(d2.get('variant')) + '+tr'
             moved.append(d2)
+    # every third flag assignment also with the cells moved by a TRCL (each cell then has its own copy of every
+    # surface it names, flag included) and the remaining cells written with the qualified numbers 1000*cell + surface
+    # of those copies
+    T = {'o': [1, 0, -1], 'm': [0, 1, 0, -1, 0, 0, 0, 0, 1]}
+
+    def qualified(t, base):
+        if t[0] == 'S':
+            return ['S', (1 if t[1] > 0 else -1) * (base + abs(t[1])), t[2]]
+        return [t[0]] + [qualified(k, base) for k in t[1:]]
+    for i, d in enumerate(decks):
+        if i % 3 == 1:
+            d2 = copy.deepcopy(d)
+            byn = {c['n']: c for c in d2['cells']}
+            for n in (1, 2):
+                byn[n].update(hastrcl=True, trcl=T, trclspell='12')
+            if 5 in byn:
+                byn[3].update(hastrcl=True, trcl=T, trclspell='12')
+                byn[5]['geom'] = qualified(byn[5]['geom'], 3000)
+            else:
+                byn[3]['geom'] = qualified(byn[3]['geom'], 2000)
+            byn[4]['geom'] = qualified(byn[4]['geom'], 1000)
+            d2['variant'] = str(d2.get('variant')) + '+trcl'
+            d2['norenumber'] = True
+            moved.append(d2)
     decks = decks + moved
     core.lap('generator')
     recs, verdicts, nd, meta = common_univ.run(
